@@ -2,7 +2,7 @@
 Spec: server/AcceptDispatch.tla with Kill / TearDown / Replace (worker generations, late availability notifications)."""
 import srvflow
 
-INV = ["T_C08_NoPanic", "T_C08_NoSpin", "T_C08_NoGhostBit", "T_C08_NoDupHandles", "T_C08_Rerouted", "T_C08_ServiceResumes", "T_C08_NoLostIndex", "T_C01_Conservation"]
+INV = ["T_C08_NoPanic", "T_C08_NoSpin", "T_C08_NoGhostBit", "T_C08_NoDupHandles", "T_C08_Rerouted", "T_C08_ServiceResumes", "T_C08_NoLostIndex", "T_C01_Conservation", "T_C04_NoImmediateRepeat"]
 DESIGN = ["MC_fault_quick.cfg", "MC_fault_w1.cfg", "MC_cmd_fault_w1.cfg"]
 EDGES = ["MC_fault_quick.cfg", "MC_fault_w1.cfg", "MC_cmd_fault_w1.cfg"]
 THOROUGH = ["MC_fault2.cfg", "MC_fault_w3.cfg", "MC_fault_w3l2.cfg", "MC_cmd_fault.cfg"]
